@@ -46,6 +46,7 @@ func init() {
 			need(m, &out, "history_independence_checks", 300)
 			need(m, &out, "muxers_in_lockstep", 100)
 			need(m, &out, "scribbled_runs", 200)
+			need(m, &out, "data_built_by_a_retaining_parser", 300)
 			need(m, &out, "size_boundary_alias_runs", 10)
 			return out
 		},
@@ -374,6 +375,18 @@ func aliasCase(c *mon.Ctx, idx int64, r *rand.Rand, s1, s2 *gen.Stream, api stri
 	in1 := append([]byte{}, s1.Bytes...)
 	in2 := append([]byte{}, s2.Bytes...)
 	cfg := DemuxCfg{PacketSize: 188, Reader: []string{"seek", "bufio", "plain"}[r.IntN(3)], API: api}
+	if api == "data" && idx%3 == 1 {
+		// an application parser that keeps what it is handed: its data refer to the packets of the unit (first packet, payload
+		// slices) instead of copying them. The packets are the application's from then on: nothing may reuse them
+		cfg.Parser = func(ps []*astits.Packet) ([]*astits.DemuxerData, bool, error) {
+			if len(ps) == 0 || ps[0].Header.PID < 0x20 {
+				return nil, false, nil
+			}
+			d := &astits.DemuxerData{PID: ps[0].Header.PID, FirstPacket: ps[len(ps)/2], PES: &astits.PESData{Header: &astits.PESHeader{StreamID: 0xbd}, Data: ps[len(ps)-1].Payload}}
+			c.Count("data_built_by_a_retaining_parser")
+			return []*astits.DemuxerData{d, {PID: ps[0].Header.PID, FirstPacket: ps[0]}}, true, nil
+		}
+	}
 	d1, _ := NewDemuxerFor(in1, cfg)
 	cfg2 := cfg
 	cfg2.API = []string{"data", "packet"}[r.IntN(2)]
